@@ -393,6 +393,55 @@ fn enumerate(
 
 const E_ACUTE: &[u8] = &[0xC3, 0xA9];
 
+/// `n` bytes: `fill` repeated, last byte `last` (contents that agree on everything but the last byte)
+fn long_content(n: usize, fill: u8, last: u8) -> Vec<u8> {
+	let mut v = vec![fill; n];
+	if let Some(l) = v.last_mut() {
+		*l = last;
+	}
+	v
+}
+
+/// one random well-typed history over the given contents; keeps about `target` values alive
+fn gen_random(rng: &mut Rng, alphabet: &[Vec<u8>], len: usize, target: usize, st: &mut Stats) -> Vec<Op> {
+	let mut sh: Shadow = Vec::new();
+	let mut ops = Vec::with_capacity(len);
+	let mut handovers = 0;
+	for _ in 0..len {
+		let grow = sh.len() < target;
+		let r = rng.below(100);
+		let op = if sh.is_empty() || (grow && r < 45) || (!grow && r < 10) {
+			let b = alphabet[rng.below(alphabet.len())].clone();
+			if std::str::from_utf8(&b).is_ok() && rng.chance(1, 2) {
+				Op::IS(b)
+			} else {
+				Op::IB(b)
+			}
+		} else if r < 3 + 10 && handovers < 3 && rng.chance(1, 6) {
+			handovers += 1;
+			Op::Ho
+		} else {
+			let i = rng.below(sh.len());
+			let k = rng.below(if grow { 10 } else { 14 });
+			match k {
+				0..=2 => Op::Cl(i),
+				3..=5 => {
+					if sh[i].1 {
+						Op::Cb(i)
+					} else {
+						Op::Cs(i)
+					}
+				}
+				_ => Op::Dr(i),
+			}
+		};
+		shadow_apply(&mut sh, &op);
+		st.max_live = st.max_live.max(sh.len());
+		ops.push(op);
+	}
+	ops
+}
+
 fn run_intern(opts: &Opts) {
 	let mut w = CaseWriter::new(&opts.out);
 	let mut st = Stats { ops: BTreeMap::new(), lens: BTreeMap::new(), max_live: 0, histories: 0 };
@@ -477,42 +526,81 @@ fn run_intern(opts: &Opts) {
 		let len = 20 + rng.below(181);
 		let target = 1 + rng.below(12);
 		let few = 1 + rng.below(alphabet.len());
-		let mut sh: Shadow = Vec::new();
-		let mut ops = Vec::with_capacity(len);
-		let mut handovers = 0;
-		for _ in 0..len {
-			let grow = sh.len() < target;
-			let r = rng.below(100);
-			let op = if sh.is_empty() || (grow && r < 45) || (!grow && r < 10) {
-				let b = alphabet[rng.below(few)].clone();
-				if std::str::from_utf8(&b).is_ok() && rng.chance(1, 2) {
-					Op::IS(b)
-				} else {
-					Op::IB(b)
-				}
-			} else if r < 3 + 10 && handovers < 3 && rng.chance(1, 6) {
-				handovers += 1;
-				Op::Ho
-			} else {
-				let i = rng.below(sh.len());
-				let k = rng.below(if grow { 10 } else { 14 });
-				match k {
-					0..=2 => Op::Cl(i),
-					3..=5 => {
-						if sh[i].1 {
-							Op::Cb(i)
-						} else {
-							Op::Cs(i)
-						}
-					}
-					_ => Op::Dr(i),
-				}
-			};
-			shadow_apply(&mut sh, &op);
-			st.max_live = st.max_live.max(sh.len());
-			ops.push(op);
-		}
+		let ops = gen_random(&mut rng, &alphabet[..few], len, target, &mut st);
 		emit(&mut w, &mut st, &ops, true, "random");
+	}
+
+	// 2b. contents around and beyond 512 bytes (hashing / lookup of long keys): the same long
+	// contents interned again while a first copy is alive, as str and as bytes, with casts,
+	// clones, hand-over in between; pairs that share their first 512 bytes.
+	let long_lens: &[usize] = &[511, 512, 513, 600, 4096];
+	let mut long_histories = 0usize;
+	for &n in long_lens {
+		let x = long_content(n, b'x', b'1');
+		let y = long_content(n, b'x', b'2'); // same length, same first n-1 bytes
+		let z = long_content(n, b'x', 0xFF); // not UTF-8: cast_str fails
+		// hand-written family, every step compared
+		let i1: [fn(Vec<u8>) -> Op; 2] = [Op::IS, Op::IB];
+		for a in i1 {
+			for b in i1 {
+				let fam: Vec<Vec<Op>> = vec![
+					vec![a(x.clone()), b(x.clone()), Op::Dr(0), Op::Dr(0)],
+					vec![a(x.clone()), b(x.clone()), Op::Dr(1), Op::Dr(0)],
+					vec![a(x.clone()), b(x.clone()), Op::Cl(1), Op::Dr(0), b(x.clone()), Op::Dr(0), Op::Dr(0), Op::Dr(0)],
+					vec![a(x.clone()), Op::Cl(0), Op::Dr(0), b(x.clone()), a(x.clone()), Op::Dr(1), Op::Dr(0), Op::Dr(0)],
+					vec![a(x.clone()), Op::Ho, b(x.clone()), Op::Dr(0), b(x.clone()), Op::Dr(0), Op::Dr(0)],
+					vec![a(x.clone()), b(y.clone()), a(x.clone()), b(y.clone()), Op::Dr(0), a(y.clone()), Op::Dr(0), Op::Dr(0), Op::Dr(0), Op::Dr(0)],
+					vec![a(x.clone()), Op::IB(z.clone()), b(x.clone()), Op::IB(z.clone()), Op::Cs(1), Op::IB(z.clone()), Op::Dr(0), Op::Dr(0), Op::Dr(0), Op::Dr(0)],
+				];
+				for (fi, ops) in fam.iter().enumerate() {
+					// the 4 KiB contents run the short members only (quick tier): output size
+					if n > 1024 && !opts.thorough() && !matches!(fi, 0 | 1 | 4) {
+						continue;
+					}
+					emit(&mut w, &mut st, ops, true, "long-family");
+					long_histories += 1;
+				}
+			}
+		}
+		// cast in between: str -> bytes -> intern again as str, and the reverse
+		let casts: Vec<Vec<Op>> = vec![
+			vec![Op::IS(x.clone()), Op::Cb(0), Op::IS(x.clone()), Op::Cs(0), Op::IB(x.clone()), Op::Dr(0), Op::Dr(0), Op::Dr(0)],
+			vec![Op::IB(x.clone()), Op::Cs(0), Op::IB(x.clone()), Op::Cs(1), Op::IS(x.clone()), Op::Dr(2), Op::Dr(0), Op::Dr(0)],
+		];
+		for ops in &casts {
+			emit(&mut w, &mut st, ops, true, "long-family");
+			long_histories += 1;
+		}
+		// every valid history of length <= 3 over {str x, bytes x, bytes y} + hand-over
+		if n <= 600 || opts.thorough() {
+			let interns = vec![Op::IS(x.clone()), Op::IB(x.clone()), Op::IB(y.clone())];
+			let before = st.histories;
+			for len in 1..=3 {
+				enumerate(&mut w, &mut st, &mut Vec::new(), &Vec::new(), &interns, true, len);
+			}
+			long_histories += st.histories - before;
+		}
+	}
+	// random histories over long contents only / long mixed with short
+	let long_alphabet: Vec<Vec<u8>> = vec![
+		long_content(513, b'x', b'1'),
+		long_content(513, b'x', b'2'),
+		long_content(600, b'y', b'1'),
+		long_content(600, b'y', 0xFF),
+		long_content(512, b'x', b'1'),
+		long_content(511, b'x', b'1'),
+		long_content(1025, b'z', b'1'),
+		b"a".to_vec(),
+		"x".repeat(300).into_bytes(),
+	];
+	let n_long_random = if opts.thorough() { 300 } else { 30 };
+	for _ in 0..n_long_random {
+		let len = 10 + rng.below(31);
+		let target = 1 + rng.below(5);
+		let few = 2 + rng.below(long_alphabet.len() - 1);
+		let ops = gen_random(&mut rng, &long_alphabet[..few], len, target, &mut st);
+		emit(&mut w, &mut st, &ops, true, "long-random");
+		long_histories += 1;
 	}
 
 	// 3. UTF-8 validity of the model against `cast_str` (i.e. `str::from_utf8`) on boundary bytes
@@ -564,10 +652,12 @@ fn run_intern(opts: &Opts) {
 	w.finish(
 		json!({
 			"engine": "c18",
-			"rule": format!("interner histories: exhaustive valid op sequences (7 intern ops x clone/drop/cast on every live value x hand-over) to length {full_d}, 4 intern ops to {small_d}, 3 to {tiny_d}; {n_random} random histories of 20..200 ops over {} contents; {utf8_total} byte strings through cast_str", alphabet.len()),
+			"rule": format!("interner histories: exhaustive valid op sequences (7 intern ops x clone/drop/cast on every live value x hand-over) to length {full_d}, 4 intern ops to {small_d}, 3 to {tiny_d}; {n_random} random histories of 20..200 ops over {} contents; {long_histories} histories over contents of 511/512/513/600/1025/4096 bytes (same long contents interned again while alive, pairs differing only in the last byte, str/bytes, casts, hand-over; enumerated to length 3 + families + random); {utf8_total} byte strings through cast_str", alphabet.len()),
 			"histories": st.histories,
 			"exhaustive_histories": exhaustive,
 			"random_histories": n_random,
+			"long_content_histories": long_histories,
+			"long_content_lengths": long_lens,
 			"op_histogram": st.ops,
 			"length_histogram": len_hist,
 			"max_live_values": st.max_live,
@@ -638,7 +728,43 @@ const TEMPLATES: &[(&str, &str)] = &[
 	("stack-deep-super", "std.foldl(function(a, b) a + {v: super.v + b, s: self}, std.range(1, 400), {v: 0}).v"),
 ];
 
-fn gc_once(code: &str) -> String {
+/// Programs whose field names / strings are longer than 512 bytes and are built twice
+/// independently (std.repeat, concatenation, join); the second copy is used for a computed field
+/// lookup, `std.objectHas`, `==` and inheritance.  (tag, program with `{N}` = length, expected JSON)
+const LONG_PROGRAMS: &[(&str, &str, &str)] = &[
+	(
+		"long-field-lookup",
+		"local k1 = std.repeat('a', {N}), k2 = std.repeat('a', {N} - 1) + 'a'; local o = {[k1]: 7, me: self}; [o[k2], k1 == k2, std.objectHas(o, k2), std.length(std.objectFields(o.me))]",
+		"[7,true,true,2]",
+	),
+	(
+		"long-field-inherit",
+		"local mk(n) = std.join('', std.makeArray(n, function(i) 'q')); local a = mk({N}), b = mk({N} - 1) + 'q'; [{[a]: 1} + {[b]+: 2} == {[b]: 3}, std.length(std.objectFields({[a]: 1} + {[b]: 2}))]",
+		"[true,1]",
+	),
+	(
+		"long-field-concat",
+		"local s = std.repeat('k', {N}); local o = {[s + 'x']: 'v'}; o[std.repeat('k', {N}) + 'x'] + std.toString(std.repeat('k', {N}) + 'x' == s + 'x')",
+		"\"vtrue\"",
+	),
+	(
+		"long-field-cycle",
+		"local n1 = std.repeat('n', {N}), n2 = std.join('', [std.repeat('n', {N} - 1), 'n']); local o = {[n1]: o, z: 1}; o[n2][n2].z",
+		"1",
+	),
+	(
+		"long-string-set",
+		"local a = std.repeat('a', {N}), b = std.repeat('a', {N} - 1) + 'a'; [std.length(std.set([a, b])), a == b, std.decodeUTF8(std.encodeUTF8(a)) == b, {[a]: 1}[std.decodeUTF8(std.encodeUTF8(b))]]",
+		"[1,true,true,1]",
+	),
+	(
+		"long-field-format",
+		"local a = std.repeat('f', {N}), b = '%s%s' % [std.repeat('f', {N} - 2), 'ff']; local o = {[a]: {v: 5, up: o}}; o[b].up[b].v",
+		"5",
+	),
+];
+
+fn gc_once(code: &str) -> (String, String) {
 	let s = new_state();
 	let r = guarded(|| {
 		let v = s.evaluate_snippet("<gc>".to_owned(), code.to_owned())?;
@@ -649,9 +775,13 @@ fn gc_once(code: &str) -> String {
 		Ok(Err(e)) => format!("err:{}", err_class(e)),
 		Err(_) => "panic".to_string(),
 	};
+	let result = match &r {
+		Ok(Ok(text)) => text.to_string(),
+		_ => class.clone(),
+	};
 	drop(r);
 	drop(s);
-	class
+	(class, result)
 }
 
 fn gc_measure(code: &str) -> Value {
@@ -660,20 +790,25 @@ fn gc_measure(code: &str) -> Value {
 		.stack_size(256 << 20)
 		.spawn(move || {
 			let fresh_tracked = jrsonnet_gcmodule::count_thread_tracked();
-			let c1 = gc_once(&code);
+			let (c1, _) = gc_once(&code);
 			jrsonnet_gcmodule::collect_thread_cycles();
 			let base_tracked = jrsonnet_gcmodule::count_thread_tracked() as i64;
 			let base_pool = verif_pool_len() as i64;
-			let c2 = gc_once(&code);
+			let (c2, result) = gc_once(&code);
 			let uncollected = jrsonnet_gcmodule::count_thread_tracked() as i64 - base_tracked;
 			jrsonnet_gcmodule::collect_thread_cycles();
 			let tracked = jrsonnet_gcmodule::count_thread_tracked() as i64;
 			let pool = verif_pool_len() as i64;
+			// The thread is about to end: thread-local caches that hold interned strings are
+			// dropped by TLS destructors, where a failing pool assertion cannot unwind and would
+			// abort the whole harness.  Detach (leak) the pool first; measurements are done.
+			let _ = guarded(exit_thread);
 			json!({
 				"tracked_leaked": tracked - base_tracked,
 				"pool_leaked": pool - base_pool,
 				"panic": c1 == "panic" || c2 == "panic",
 				"_class": c2,
+				"_result": result,
 				"_class_first": c1,
 				"_baseline_tracked": base_tracked,
 				"_fresh_tracked": fresh_tracked,
@@ -692,6 +827,49 @@ fn instantiate(t: &str, rng: &mut Rng) -> String {
 	t.replace("{K}", &k.to_string()).replace("{S}", s)
 }
 
+/// Measure one program in a child process (`jvh c18gc --replay`); a child that dies is a panic.
+fn gc_measure_child(op: &Value, out: &std::path::Path) -> Value {
+	let dir = out.join("child");
+	let _ = std::fs::create_dir_all(&dir);
+	let rp = dir.join("replay.json");
+	let died = |why: String| json!({"tracked_leaked": -1, "pool_leaked": -1, "panic": true, "_class": why});
+	if std::fs::write(&rp, json!({ "op": op }).to_string()).is_err() {
+		return died("child-io".into());
+	}
+	let _ = std::fs::remove_file(dir.join("impl.jsonl"));
+	let exe = match std::env::current_exe() {
+		Ok(e) => e,
+		Err(_) => return died("child-exe".into()),
+	};
+	let status = std::process::Command::new(exe)
+		.arg("c18gc")
+		.args(["--tier", "quick", "--seed", "1", "--out"])
+		.arg(&dir)
+		.arg("--replay")
+		.arg(&rp)
+		.stderr(std::process::Stdio::null())
+		.status();
+	let line = std::fs::read_to_string(dir.join("impl.jsonl")).unwrap_or_default();
+	match (status, serde_json::from_str::<Value>(line.lines().next().unwrap_or(""))) {
+		(Ok(st), Ok(mut v)) if st.success() => {
+			// the child already copied `_result` into `result`; drop it, the caller does that
+			if let Some(o) = v.as_object_mut() {
+				o.remove("result");
+			}
+			v
+		}
+		(Ok(st), _) => died(format!("child-died:{st}")),
+		(Err(e), _) => died(format!("child-spawn:{e}")),
+	}
+}
+
+/// keep the case files current so that, should the process die, the last line names the program
+fn flush(w: &mut CaseWriter) {
+	use std::io::Write;
+	let _ = w.inp.flush();
+	let _ = w.imp.flush();
+}
+
 fn run_gc(opts: &Opts) {
 	let mut w = CaseWriter::new(&opts.out);
 	let mut classes: BTreeMap<String, usize> = BTreeMap::new();
@@ -705,12 +883,33 @@ fn run_gc(opts: &Opts) {
 			garbage += 1;
 		}
 		w.case(json!({"op":"gc.observe","prog":code,"tag":tag,"size":code.len()}), m);
+		flush(w);
+	};
+	// same measurement, and the manifested result must be the expected JSON.  `isolated`: the
+	// program runs in a child process (this binary in replay mode), because a failing pool
+	// assertion inside a destructor that runs during unwinding aborts the process it happens in.
+	let out_dir = opts.out.clone();
+	let push_expect = move |w: &mut CaseWriter, tag: &str, code: String, expect: &str, isolated: bool| {
+		let op = json!({"op":"gc.observe","prog":code,"tag":tag,"expect":expect,"size":code.len()});
+		let mut m = if isolated {
+			gc_measure_child(&op, &out_dir)
+		} else {
+			gc_measure(&code)
+		};
+		let result = m.get("_result").cloned().unwrap_or(Value::Null);
+		m["result"] = result;
+		w.case(op, m);
+		flush(w);
 	};
 	if let Some(rp) = &opts.replay {
 		let v: Value = serde_json::from_str(&std::fs::read_to_string(rp).expect("replay")).expect("json");
 		let opv = v.get("op").cloned().unwrap_or(v);
 		if let Some(code) = opv.get("prog").and_then(Value::as_str) {
-			push(&mut w, "replay", code.to_string());
+			if let Some(e) = opv.get("expect").and_then(Value::as_str) {
+				push_expect(&mut w, "replay", code.to_string(), e, false);
+			} else {
+				push(&mut w, "replay", code.to_string());
+			}
 		}
 		w.finish(json!({"engine":"c18gc","rule":"replay"}), &opts.out);
 		return;
@@ -721,6 +920,14 @@ fn run_gc(opts: &Opts) {
 		for _ in 0..(if opts.thorough() { 8 } else { 3 }) {
 			let code = instantiate(t, &mut rng);
 			push(&mut w, tag, code);
+		}
+	}
+	// long (> 512 bytes) names and strings built twice independently
+	let mut long_programs = 0usize;
+	for (tag, t, expect) in LONG_PROGRAMS {
+		for n in [511usize, 512, 513, 600, 4096] {
+			push_expect(&mut w, tag, t.replace("{N}", &n.to_string()), expect, true);
+			long_programs += 1;
 		}
 	}
 	// combinations: several cyclic structures alive at once, some failing
@@ -750,8 +957,9 @@ fn run_gc(opts: &Opts) {
 	w.finish(
 		json!({
 			"engine": "c18gc",
-			"rule": format!("collector: {} cyclic-structure templates (self reference, recursive closures, mutual locals, object-local contexts; succeeding / failing / stack-limited) x parameters + {n_combo} random combinations; each evaluated twice on a fresh thread, State and result dropped, collect_thread_cycles(); tracked objects and pool size after run 2 == after run 1", TEMPLATES.len()),
+			"rule": format!("collector: {} cyclic-structure templates (self reference, recursive closures, mutual locals, object-local contexts; succeeding / failing / stack-limited) x parameters + {n_combo} random combinations + {long_programs} programs with names/strings of 511..4096 bytes built twice independently (computed field lookup, objectHas, ==, inheritance; result must equal the expected JSON); each evaluated twice on a fresh thread, State and result dropped, collect_thread_cycles(); tracked objects and pool size after run 2 == after run 1", TEMPLATES.len()),
 			"programs": cases,
+			"long_name_programs_with_expected_result": long_programs,
 			"result_class_histogram": classes,
 			"template_histogram": tags,
 			"programs_that_left_cyclic_garbage_for_the_collector": garbage,
